@@ -188,7 +188,18 @@ def coq_obligations(pid, extra_targets=(), timeout=3000, more_props=()):
 def coqchk(pid, timeout=1500, more_props=()):
     mods = ["Yui.Properties.%s" % q for q in [pid] + list(more_props)]
     rc, out, dt = sh(["coqchk", "-silent", "-o", "-Q", ".", "Yui"] + mods, cwd=COQ, timeout=timeout)
-    return {"coqchk_rc": rc, "coqchk_tail": out[-1500:], "coqchk_s": round(dt, 1)}
+    probs = []
+    if rc != 0:
+        probs.append("coqchk failed (rc=%d): %s" % (rc, out[-600:]))
+    m = re.search(r"\* Axioms:(.*?)\n\s*\n", out, re.S)
+    axs = []
+    if m and "<none>" not in m.group(1):
+        axs = [a.strip() for a in m.group(1).splitlines() if a.strip()]
+        for a in axs:
+            if a.split(".")[-1] not in AXIOM_ALLOW and a not in AXIOM_ALLOW:
+                probs.append("coqchk: loaded library axiom %s (not in allowlist)" % a)
+    return {"coqchk_rc": rc, "coqchk_tail": out[-1500:], "coqchk_s": round(dt, 1), "coqchk_axioms": axs,
+            "coqchk_problems": probs}
 
 
 # ------------------------------------------------------------------------------------------------
@@ -464,6 +475,8 @@ def finish(ctx, level, obl, corr, rule, extra_cov=None, assumptions=None, classi
         broken += obl["problems"]
     if corr is not None and corr.get("error"):
         broken.append(corr["error"])
+    if extra_cov and extra_cov.get("coqchk_problems"):
+        broken += extra_cov["coqchk_problems"]
     if viol:
         text, payload = viol[0]
         replay = write_replay(pid, ctx.seed, {
